@@ -380,22 +380,30 @@ static std::vector<Op> alphabet() {
 // is not enumerated by any other section (so the distinct-case count is exact by construction).
 struct StepResult { bool enabled = false; uint64_t key = 0; bool ended = false, dead = false; };
 static sigjmp_buf g_hangJmp;
+static int g_hangsThisItem = 0;      // a configuration that hangs does so for many histories: after 3 the item is abandoned (counted, run not exhaustive)
+static bool tooManyHangs(verif::Run& run) {
+    if (!run.thorough()) return false;           // quick tier: few enough (about 25, all in CPodes no-interp + final time) to wait for
+    if (g_hangsThisItem < 3) return false;
+    if (g_hangsThisItem == 3) { g_hangsThisItem++; run.count("items_abandoned_after_3_requests_that_never_return"); run.acc.expired = true; }
+    return true;
+}
 static void onAlarm(int) { siglongjmp(g_hangJmp, 1); }
 static StepResult runHistory(verif::Run& run, const Cfg& cfg, const std::vector<Op>& prefix, const Op& op, bool distinctCase, bool withTail = true) {
     StepResult R;
-    // watchdog: a request that does not return within 6 s abandons the (leaked) integrator and is reported
+    // watchdog: a request that does not return within 2 s abandons the (leaked) integrator and is reported
     static bool installed = false;
     if (!installed) { installed = true; struct sigaction sa; memset(&sa, 0, sizeof sa); sa.sa_handler = onAlarm; sa.sa_flags = SA_NODEFER; sigaction(SIGALRM, &sa, nullptr); }
     for (int pass = 0; pass < 2; ++pass) {
         Exec* X = new Exec(run, cfg, pass == 1 || run.verbose);
         if (sigsetjmp(g_hangJmp, 1)) {
             std::vector<Op> h = prefix; h.push_back(op);
-            run.expect(false, std::string(INTEG_NAMES[cfg.integ]) + "/request-never-returns", [&] { return "a stepTo/stepBy call (or the drive to the end) did not return within 6 s: " + cfg.str() + " [" + cfg.optStr() + "] history=" + histStr(h) + "\n" + X->trace; },
+            run.expect(false, std::string(INTEG_NAMES[cfg.integ]) + "/request-never-returns", [&] { return "a stepTo/stepBy call (or the drive to the end) did not return within 2 s: " + cfg.str() + " [" + cfg.optStr() + "] history=" + histStr(h) + "\n" + X->trace; },
                        [&] { return "cfg=" + cfg.str() + "\nhistory=" + histStr(h) + "\n" + X->trace; });
             R.enabled = true; R.dead = true;      // X is leaked on purpose: its integrator is in an unknown state
+            g_hangsThisItem++;
             return R;
         }
-        alarm(6);
+        alarm(2);
         for (auto& o : prefix) X->apply(o, false);
         if (!X->enabled(op)) { alarm(0); delete X; break; }
         R.enabled = true;
@@ -420,6 +428,7 @@ static StepResult runHistory(verif::Run& run, const Cfg& cfg, const std::vector<
 static void dfs(verif::Run& run, const Cfg& cfg, std::vector<Op>& prefix, int depth, const std::vector<Op>& A, int64_t& nHist, bool distinctBase) {
     if (depth == 0 || run.expired()) return;
     for (auto& o : A) {
+        if (tooManyHangs(run)) return;
         StepResult R = runHistory(run, cfg, prefix, o, distinctBase && prefix.size() + 1 >= 3);
         if (!R.enabled) continue;
         nHist++;
@@ -448,7 +457,9 @@ int main(int argc, char** argv) {
                        "request times come from the stated lattice; VERIF_SEED selects one of three lattices in the quick tier, thorough runs all three",
                        "bfs merging trusts the canonical key (status machine, advanced/interpolated/previous time and y, step sizes, event window); the plain section does not",
                        "cpodes section: the first call's arguments are fixed to (now,now); that the first call ignores its arguments is checked in the plain section on the visible state only",
-                       "requests with a time in the past are a documented precondition violation and are not issued"};
+                       "requests with a time in the past are a documented precondition violation and are not issued",
+                       "a scheduled time earlier than both the advanced time and the pending scheduled time of the previous request contradicts what the integrator was allowed to do and is not issued",
+                       "thorough tier: a parallel item in which 3 requests never returned (2 s watchdog) is abandoned and the run is reported as not exhaustive"};
 
     // ---- direct replay of one history
     if (run.replaying() && !run.replayField("history").empty()) {
@@ -486,6 +497,7 @@ int main(int argc, char** argv) {
     // ---- section plain: every history of length <= 2, no merging
     run.parallel("plain", (int64_t)all.size(), [&](int64_t i) {
         quietWorker(run);
+        g_hangsThisItem = 0;
         const Cfg& cfg = all[i];
         std::set<uint64_t> firstKeys;
         std::vector<Op> prefix; int64_t nHist = 0;
@@ -498,7 +510,7 @@ int main(int argc, char** argv) {
             firstKeys.insert(R.key);
             if (R.ended || R.dead) continue;
             prefix.push_back(o1);
-            for (auto& o2 : A) { StepResult R2 = runHistory(run, cfg, prefix, o2, true); if (R2.enabled) nHist++; }
+            for (auto& o2 : A) { if (tooManyHangs(run)) break; StepResult R2 = runHistory(run, cfg, prefix, o2, true); if (R2.enabled) nHist++; }
             prefix.pop_back();
         }
         // the assumption the cpodes section and the depth accounting rest on
@@ -513,6 +525,7 @@ int main(int argc, char** argv) {
     // ---- section bfs: AbstractIntegratorRep family, merging canonical states
     run.parallel("bfs", (int64_t)abs.size(), [&](int64_t i) {
         quietWorker(run);
+        g_hangsThisItem = 0;
         const Cfg& cfg = abs[i];
         std::set<uint64_t> seen;
         { Exec X(run, cfg, false); seen.insert(canonKey(*X.I, false)); run.state(verif::hashMix(verif::hashStr(cfg.str()), canonKey(*X.I, false))); }
@@ -523,6 +536,7 @@ int main(int argc, char** argv) {
             for (auto& h : frontier) {
                 if (run.expired()) break;
                 for (auto& o : A) {
+                    if (tooManyHangs(run)) break;
                     StepResult R = runHistory(run, cfg, h, o, h.size() + 1 >= 3);
                     if (!R.enabled) continue;
                     nRuns++;
@@ -549,14 +563,15 @@ int main(int argc, char** argv) {
         for (auto& c : cps) for (auto& o : A) items.push_back({c, o});
         run.parallel("cpodes", (int64_t)items.size(), [&](int64_t i) {
         quietWorker(run);
+        g_hangsThisItem = 0;
             const Cfg& cfg = items[i].cfg;
             Op first; first.kind = 0; first.ri = 0; first.si = 0;
             std::vector<Op> prefix = {first};
             StepResult R = runHistory(run, cfg, prefix, items[i].second, false);
             if (!R.enabled) return;
             int64_t nHist = 1;
-            // thorough: length 4 for BDF on the first lattice (wit 0,2); length 3 everywhere else
-            const int depth = (thorough && cfg.integ == CPODES0 && cfg.lat == lats[0] && cfg.wit != 1) ? 4 : 3;
+            // thorough: length 4 for BDF on the first lattice without witness; length 3 everywhere else
+            const int depth = (thorough && cfg.integ == CPODES0 && cfg.lat == lats[0] && cfg.wit == 0) ? 4 : 3;
             if (!(R.ended || R.dead)) {
                 prefix.push_back(items[i].second);
                 dfs(run, cfg, prefix, depth - 2, A, nHist, true);
@@ -569,6 +584,7 @@ int main(int argc, char** argv) {
             // all histories of length 3 with an unrestricted first call
             run.parallel("cpodes-full3", (int64_t)items.size(), [&](int64_t i) {
         quietWorker(run);
+        g_hangsThisItem = 0;
                 const Cfg& cfg = items[i].cfg;
                 if (cfg.lat != lats[0] || cfg.integ != CPODES0 || cfg.wit != 0) return;     // BDF, first lattice, no witness
                 std::vector<Op> prefix;
